@@ -26,7 +26,7 @@ ASSUMPTIONS = ["dask.core.get_dependencies / toposort as the definition of key r
 STAGES = ["logical", "simplified-logical", "tuned-logical", "physical", "simplified-physical", "fused"]
 CONFIG = {
     "quick": {"budget_s": 45, "programs": 700, "case_timeout_s": 60},
-    "thorough": {"budget_s": 480, "programs": 12000, "case_timeout_s": 120},
+    "thorough": {"budget_s": 480, "programs": 4000, "case_timeout_s": 120},
 }
 
 
